@@ -112,6 +112,9 @@ def main():
     rep.trust("vf/macrogen.py: textual expansion of the macro library (the twin generator is the specification of 'replace each call with the body, arguments substituted')",
               "vf/rtc/bisim.py")
     prove_macro_call(rep, nmfu, program)
+    # name resolution is innermost-first (every kind, every pattern of binding frames up to depth 3, global presence)
+    from . import c13_lookup_proofs
+    c13_lookup_proofs.run(rep, "C13")
     thorough = common.tier() == "thorough"
     tw = macrogen.twins(1500 if thorough else 120, common.seed())
     _CTX["twins"] = tw
@@ -158,6 +161,8 @@ def main():
     rep.fn("Macro.bind_arguments_for", "ParseCtx._lookup_named_entity", "ParseCtx._parse_stmt (call_stmt)")
     rep.samples += [t["macro_src"].split("parser")[1].strip()[:160] for t in tw[:4]]
     text = ("_parse_macro_call: arity rejection and push/pop balance proved by pyvc for arities 0..3 x 0..3 (concrete arities, symbolic nothing else needed). "
+            "_lookup_named_entity executed from the real AST for every kind x every pattern of binding / other-kind / absent frames up to depth 3 x global presence: the innermost binding of that kind wins, "
+            "then the global entity, else UndefinedReferenceError (depth bound 3 stated; the loop is a single first-hit scan). "
             f"Substitution equivalence: {len(tw)} generated macro programs (all argument kinds, nested calls, forwarding, crossed names, macros inside loops) and their hand-inlined twins: same accept/reject verdict and, when accepted, "
             "exact bisimulation of the compiled machines at -O1 and -O3. Ill-typed calls must be diagnosed. Bounded over the generated programs.")
     return rep.finish(text, checker_cmd="./check C13")
